@@ -36,7 +36,7 @@ ASSUMPTIONS = [
     "ill-typed operands: name/array/dict/non-numeric string where a number is required; name/array/dict where a string is required; the compound operators ' and \" only get missing-operand faults",
     "q/Q do not occur inside BT..ET (not allowed by ISO 8.2)",
 ]
-PROBES = ["split into >1 streams", "empty stream piece", "cut inside TJ array", "form invoked", "nested form", "operand fault: missing", "operand fault: ill-typed", "type3 font", "type0 font", "Tc nonzero across show operators", "double-quote operator", "TD sets leading", "q/Q restores text state", "text after form", "font cache eviction", "page origin non-zero"]
+PROBES = ["split into >1 streams", "empty stream piece", "cut inside TJ array", "form invoked", "nested form", "operand fault: missing", "operand fault: ill-typed", "several operand faults in one program", "type3 font", "type0 font", "Tc nonzero across show operators", "double-quote operator", "TD sets leading", "q/Q restores text state", "text after form", "font cache eviction", "page origin non-zero"]
 TIERS = {
     "quick": {"batches": 16, "runs": 1200, "budget_s": 45},
     "thorough": {"batches": 128, "runs": 2500, "budget_s": 900},
@@ -339,6 +339,22 @@ def inject_fault(t, ctx, prog):
     return faulted, reference, "%s operand of %r (operator #%d)" % (kind, op, i)
 
 
+def inject_fault_pair(t, ctx, faulted, reference):
+    """One more fault on an operator that is still intact in both programs (they differ only by deleted operators)."""
+    intact = [op for op in reference if op.name in FAULTABLE_NUM | FAULTABLE_STR | FAULTABLE_MISSING_ONLY and any(o is op for o in faulted)]
+    if not intact:
+        return None
+    target = t.pick(intact, "fault2.op")
+    fi = next(i for i, o in enumerate(faulted) if o is target)
+    ri = next(i for i, o in enumerate(reference) if o is target)
+    args = list(target.args)
+    if not args:
+        return None
+    del args[t.draw(len(args), "fault2.which")]
+    ctx.fault("operand-missing")
+    return faulted[:fi] + [Op(target.name, args)] + faulted[fi + 1 :], reference[:ri] + reference[ri + 1 :], "missing operand of %r" % (target,)
+
+
 def run(tape, ctx, item=None):
     t = tape
     devs = []
@@ -358,7 +374,15 @@ def run(tape, ctx, item=None):
     if t.coin(35, 100, "fault"):
         f = inject_fault(t, ctx, prog)
         if f:
-            variants.append(("faulted", f[0], f[1], f[2]))
+            faulted, reference, fdesc = f
+            # sometimes two or three faulty operators in one program: each must still be a no-op of its own
+            # (operands left behind by one must not feed another)
+            for _ in range(t.weighted([6, 3, 1], "fault.more")):
+                g = inject_fault_pair(t, ctx, faulted, reference)
+                if g:
+                    faulted, reference, fdesc = g[0], g[1], fdesc + " + " + g[2]
+                    ctx.probe("several operand faults in one program")
+            variants.append(("faulted", faulted, reference, fdesc))
     nglyph = 0
     for tag, real_prog, ref_prog, fdesc in variants:
         try:
